@@ -61,6 +61,10 @@ func newRJFix(c *core.Ctx, rule string) *rjFix {
 	in.Stubs["ast.ApplyFn.String"] = in.Stubs["ast.Atom.String"]
 	in.Stubs["ast.Variable.String"] = in.Stubs["ast.Atom.String"]
 	in.Globals = map[string]ordabs.Value{"engine.errBreak": ordabs.ErrVal{Tag: "break"}}
+	if tk := newTypeKit(c, rule); tk.ok {
+		// set by package ast's init function
+		in.Globals["ast.TrueConstant"], in.Globals["ast.FalseConstant"] = tk.name("/true"), tk.name("/false")
+	}
 	get := func(v ordabs.Value) rjStore {
 		o, _ := v.(*ordabs.Obj)
 		return r.stores[o]
@@ -185,6 +189,24 @@ func rjHolds(p hPrem, sigma map[string]int64, store rjStore) bool {
 	case "atom", "neg":
 		if strings.HasPrefix(p.pred, ":") {
 			a, ok1 := rjTermVal(p.args[0], sigma)
+			if p.pred == ":list:member" {
+				// the list is written as fn:list(e1, ..., en) over integer-valued terms
+				if !ok1 {
+					return false
+				}
+				r := false
+				if len(p.args) == 2 && p.args[1].kind == "fn" && p.args[1].name == "fn:list" {
+					for _, e := range p.args[1].args {
+						if ev, ok := rjTermVal(e, sigma); ok && ev == a {
+							r = true
+						}
+					}
+				}
+				if p.kind == "neg" {
+					return !r
+				}
+				return r
+			}
 			b, ok2 := rjTermVal(p.args[1], sigma)
 			if !ok1 || !ok2 {
 				return false
@@ -415,6 +437,8 @@ func rjPool() []hPrem {
 		hPrem{kind: "ineq", l: X, r: hc(2)},
 		hPrem{kind: "atom", pred: ":le", args: []hTerm{Y, hf("fn:plus", X, hc(1))}},
 		hPrem{kind: "atom", pred: ":match_pair", args: []hTerm{X, Y, hv("Z")}},
+		hPrem{kind: "atom", pred: ":list:member", args: []hTerm{Y, hf("fn:list", hc(1), hc(3), X)}},
+		hPrem{kind: "atom", pred: ":list:member", args: []hTerm{X, hf("fn:list", hc(2), hc(3), hc(2))}},
 	)
 	return p
 }
